@@ -29,6 +29,7 @@ PROP = {  # commit subject prefix -> (property, what failed)
     "fix: a function or method named size keeps its name": ("C15", "a definition named size was emitted as __size__, its call sites were not (49 renamings to `size`; also NameError under C04)"),
     "fix: a user class called Union is rendered by its name": ("C15", "'class Union(def x: Int)' ... 'Union(1)' was emitted as '1'; as a parent it panicked ('Expected type in parent')"),
     "fix: names in a user import are reproduced verbatim": ("C16", "'from typing import List' was emitted as 'from typing import list'"),
+    "fix: class members whose positions coincide": ("C12", "a class with a method standing two places before a field was emitted with members in HashMap order: 182 of 410 programs gave 2-4 different outputs over 14 seeds, on 16 threads and across processes"),
 }
 def main():
     data = json.load(open(P)) if os.path.exists(P) else {"findings": []}
